@@ -143,7 +143,7 @@ class Compose(object):
         obj = cls()
         try:
             obj.load(path)
-        except (ValueError, KeyError, TypeError, AttributeError) as exc:
-            # KeyError etc.: well-formed JSON that is not the expected metadata
+        except (ValueError, LookupError, TypeError, AttributeError) as exc:
+            # LookupError etc.: well-formed JSON that is not the expected metadata
             raise RuntimeError('%s can not be deserialized: %s.' % (path, exc))
         return obj
